@@ -114,6 +114,15 @@ func (H) Gen(prop string, rng *rand.Rand, tier string) *core.Plan {
 	// log is collected by the minimum over three groups). 1 = its node is down for the whole run (the other follower
 	// must not be held up by it), 2 = alive and left alone apart from the transport faults (its log must be the same
 	// gap-free copy; histories without a leader tail loss, whose exemptions are kept per follower 2 only)
+	if rng.Intn(6) == 0 {
+		// the follower loses its log IN PLACE: its storage has flushed everything the log held, the family is out of the
+		// writable range, and the follower's own log manager destroys the consumed log (hourly housekeeping) while its
+		// process - and the leader's stream to it - stay alive; the leader still gets (late) messages for that family
+		p.Cfg["f_expiry"] = 1
+		at := 1 + rng.Intn(len(p.Ops))
+		p.Ops = append(p.Ops[:at], append([]core.Op{{K: "put", A: int64(1 + rng.Intn(3)), B: int64(8 + rng.Intn(60))}, {K: "expire_f"},
+			{K: "put", A: int64(1 + rng.Intn(3)), B: int64(8 + rng.Intn(60))}}, p.Ops[at:]...)...)
+	}
 	// 3 = like 2, but it JOINS later: the leader's partition is built for one follower; from the `join` operation on the
 	// write streams name it as a replica (BuildReplicaForLeader creates its consumer group on a log that holds messages,
 	// the handshake resets the newcomer to the leader's position) - in half of those plans the leader dies inside that
@@ -173,13 +182,27 @@ func (s *stubShard) GetOrCrateDataFamily(int64) (tsdb.DataFamily, error) {
 	return s.fam, nil
 }
 
-type stubFamily struct{ tsdb.DataFamily }
+type stubFamily struct {
+	tsdb.DataFamily
+	n *node // the node this family lives on
+}
 
+// TimeRange: a family that can be written for the next hundred years, or (node.famExpired) the hour it really is -
+// out of the writable range as soon as the simulated clock has passed it by more than the 15 minutes of the log manager
 func (f *stubFamily) TimeRange() timeutil.TimeRange {
+	if f.n != nil && f.n.famExpired {
+		return timeutil.TimeRange{Start: familyTime, End: familyTime + 3600*1000 - 1}
+	}
 	return timeutil.TimeRange{Start: familyTime, End: familyTime + 1000*3600*24*365*100}
 }
-func (f *stubFamily) FamilyTime() int64                    { return familyTime }
-func (f *stubFamily) AckSequence(int32, func(int64))       {}
+func (f *stubFamily) FamilyTime() int64 { return familyTime }
+
+// AckSequence: the local replicator of a log registers what a flush of the family calls with the persisted sequence
+func (f *stubFamily) AckSequence(leader int32, fn func(int64)) {
+	if f.n != nil {
+		f.n.flushAck = fn
+	}
+}
 func (f *stubFamily) ValidateSequence(int32, int64) bool   { return true }
 func (f *stubFamily) CommitSequence(int32, int64)          {}
 func (f *stubFamily) WriteRows([]*metric.StorageRow) error { return nil }
@@ -189,15 +212,17 @@ func (f *stubFamily) Release()                             {}
 // ---- simulated cluster ---------------------------------------------------------
 
 type node struct {
-	id       int
-	dir      string
-	inc      int
-	alive    bool
-	walMgr   replica.WriteAheadLogManager
-	handler  *storagerpc.ReplicaHandler
-	cancel   context.CancelFunc
-	part     replica.Partition // leader only: its own partition
-	stopping bool              // graceful shutdown has begun: the rpc server is already stopped (app/storage runtime.Stop)
+	id         int
+	dir        string
+	inc        int
+	alive      bool
+	walMgr     replica.WriteAheadLogManager
+	handler    *storagerpc.ReplicaHandler
+	cancel     context.CancelFunc
+	part       replica.Partition // leader only: its own partition
+	stopping   bool              // graceful shutdown has begun: the rpc server is already stopped (app/storage runtime.Stop)
+	famExpired bool              // the node's storage considers the family out of the writable range
+	flushAck   func(int64)       // what a flush of the family calls (registered by the local replicator of the newest log)
 }
 
 type cluster struct {
@@ -563,7 +588,7 @@ func (cl *cluster) startNode(id int) error {
 	started := false
 	inc := n.inc
 	cl.sim.SpawnIn(inc, fmt.Sprintf("boot%d", id), func() {
-		eng := &stubEngine{shard: &stubShard{db: &stubDB{}, fam: &stubFamily{}}}
+		eng := &stubEngine{shard: &stubShard{db: &stubDB{}, fam: &stubFamily{n: n}}}
 		cfg := config.WAL{Dir: filepath.Join(n.dir, "wal"), PageSize: ltoml.Size(512), RemoveTaskInterval: ltoml.Duration(time.Hour)}
 		n.walMgr = replica.NewWriteAheadLogManager(ctx, cfg, models.NodeID(id), eng, &cliFct{cl: cl}, sm)
 		n.handler = storagerpc.NewReplicaHandler(n.walMgr)
@@ -1037,6 +1062,31 @@ func (H) Run(c *core.RunCtx) {
 					c.Violate("C08/leader-restart-failed", "leader could not recover its log: %v", err)
 					return
 				}
+			}
+		case "expire_f":
+			if !f.alive || !l.alive {
+				continue
+			}
+			// everything the follower has is flushed by its storage (the flush acknowledges the log through the callback
+			// its local replicator registered), then the family leaves the writable range
+			cl.awaitCaughtUp(true)
+			fq := cl.followerLog()
+			if fq == nil || f.flushAck == nil {
+				continue
+			}
+			g, err := fq.GetOrCreateConsumerGroup(fmt.Sprint(followerID))
+			if err != nil {
+				continue
+			}
+			t0 := sim.Elapsed()
+			sim.Await(func() bool { return g.ConsumedSeq() >= fq.Queue().AppendedSeq() || sim.Elapsed()-t0 > 10*time.Second })
+			sim.Fault("follower-log-expires-in-place")
+			cl.logLost = true
+			f.flushAck(g.ConsumedSeq())
+			f.famExpired = true
+			simrt.Sleep(2*time.Hour + 20*time.Minute) // the log manager's housekeeping runs every hour
+			if !fileExists(partDir(f.dir)) {
+				sim.Probe("follower-log-destroyed-in-place")
 			}
 		case "wait":
 			simrt.Sleep(time.Duration(op.A) * time.Millisecond)
